@@ -2,6 +2,21 @@
 a mailbox directory (files survive the death of any process, unlike pipes through the parent).
 root:  python -m engine.real.tree_agent <scratch> r        children: LokyProcess(target=agent_main, args=(name, scratch))"""
 import os, sys, json, time, gc, signal
+import warnings as _w
+_w.simplefilter("ignore")
+
+# configuration "imp" of TrackerTree.tla: the main module performs a tracked operation when it is imported -- in the root,
+# and again in every child started with the loky_init_main method (which re-imports the parent's main module)
+_IMPORT = None
+if os.environ.get("VERIF_TREE_IMPORT") == "1" and __name__ in ("__main__", "__mp_main__"):
+    import loky.backend.resource_tracker as _rt0
+    import loky.backend.synchronize as _LS0
+    _import_lock = _LS0.Lock()
+    _IMPORT = dict(tracker=_rt0._resource_tracker._pid, semname=_import_lock._semlock.name)
+
+
+def _main_mod():
+    return sys.modules.get("__mp_main__") or sys.modules["__main__"]
 
 
 def _reply(scratch, name, n, obj):
@@ -13,7 +28,7 @@ def _reply(scratch, name, n, obj):
 
 def agent_main(name, scratch):
     import loky.backend.resource_tracker as rt
-    from loky.backend.process import LokyProcess
+    from loky.backend.process import LokyProcess, LokyInitMainProcess
     import loky.backend.synchronize as LS
     import multiprocessing.util as mu
     import warnings
@@ -31,12 +46,14 @@ def agent_main(name, scratch):
         op = cmd["op"]
         try:
             if op == "spawn":
-                p = LokyProcess(target=agent_main, args=(cmd["child"], scratch))
+                P = LokyInitMainProcess if cmd.get("method") == "loky_init_main" else LokyProcess
+                p = P(target=agent_main, args=(cmd["child"], scratch))
                 p.start()
                 kids[cmd["child"]] = p
                 _reply(scratch, name, n, dict(ok=True, pid=p.pid, tracker=rt._resource_tracker._pid))
             elif op == "tracker":
-                _reply(scratch, name, n, dict(ok=True, tracker=rt._resource_tracker._pid, pid=os.getpid()))
+                _reply(scratch, name, n, dict(ok=True, tracker=rt._resource_tracker._pid, pid=os.getpid(),
+                                              imp=getattr(_main_mod(), "_IMPORT", None)))
             elif op == "track_file":
                 open(cmd["path"], "w").close()
                 rt.register(cmd["path"], "file")
@@ -48,7 +65,16 @@ def agent_main(name, scratch):
                 o = None          # the only reference is the one in objs
                 _reply(scratch, name, n, dict(ok=True, tracker=rt._resource_tracker._pid, semname=semname))
             elif op == "collect":
-                objs.pop(cmd["id"], None)
+                if cmd["id"] == "imp":
+                    m = _main_mod()
+                    m._import_lock = None
+                    # (loky_init_main copies the globals of the re-imported module: the functions defined by the import
+                    # still see the original dictionary)
+                    f = getattr(m, "_main_mod", None)
+                    if f is not None:
+                        f.__globals__["_import_lock"] = None
+                else:
+                    objs.pop(cmd["id"], None)
                 gc.collect()
                 _reply(scratch, name, n, dict(ok=True))
             elif op == "die":
